@@ -1,5 +1,6 @@
 import BlockModes.Thm.C02
 import BlockModes.Thm.C03
+import BlockModes.Thm.C08
 /-
   C01 — decryption inverts encryption, and unpadded operations preserve length.
 
@@ -80,6 +81,50 @@ theorem cfb_oneshot_roundtrip (C : Cipher) (hC : C.Valid) (w₁ w₂ : Nat) (iv 
       (asyncInOut C.bs (Cfb.encBlocks C w₁) (Cfb.encBlock C) (Cfb.init C iv) m) = m := by
   rw [C03.cfb_oneshot_enc, C03.cfb_oneshot_dec]
   exact Spec.cfbDecBytes_cfbEncBytes C hC iv m hiv
+
+/-! ### byte-stream front-ends -/
+
+/-- reference machine: decrypting what was encrypted, step by step, returns the input and keeps the two
+    machines in the same state. -/
+theorem rs_dec_enc (C : Cipher) (m : Bytes) (a : RS) :
+    (RS.run true C a (RS.run false C a m).1).1 = m ∧ (RS.run true C a (RS.run false C a m).1).2 = (RS.run false C a m).2 := by
+  induction m generalizing a with
+  | nil => exact ⟨rfl, rfl⟩
+  | cons x xs ih =>
+    simp only [RS.run, RS.step]
+    have hx : x ^^^ (C.enc a.ch).getD a.cur.length 0 ^^^ (C.enc a.ch).getD a.cur.length 0 = x := by
+      rw [UInt8.xor_assoc, UInt8.xor_self, UInt8.xor_zero]
+    by_cases hb : (a.cur ++ [x ^^^ (C.enc a.ch).getD a.cur.length 0]).length = C.bs
+    · simp only [hb, if_true, Bool.false_eq_true, if_false]
+      obtain ⟨h1, h2⟩ := ih { ch := a.cur ++ [x ^^^ (C.enc a.ch).getD a.cur.length 0], cur := [] }
+      exact ⟨by rw [hx, h1], h2⟩
+    · simp only [hb, if_false, Bool.false_eq_true, if_true]
+      obtain ⟨h1, h2⟩ := ih { a with cur := a.cur ++ [x ^^^ (C.enc a.ch).getD a.cur.length 0] }
+      exact ⟨by rw [hx, h1], h2⟩
+
+/-- **buffered CFB**: a `BufDecryptor` fed the ciphertext in any pieces returns what a `BufEncryptor` was fed
+    in any (other) pieces; the ciphertext has the length of the message. -/
+theorem cfbbuf_roundtrip (C : Cipher) (hC : C.Valid) (iv : Bytes) (hiv : iv.length = C.bs) (pe pd : List Bytes)
+    (hpd : pd.flatten = (C08.bufRun false C (CfbBuf.init C iv) pe).1.flatten) :
+    (C08.bufRun true C (CfbBuf.init C iv) pd).1.flatten = pe.flatten ∧
+    (C08.bufRun false C (CfbBuf.init C iv) pe).1.flatten.length = pe.flatten.length := by
+  rw [C08.cfbbuf_any_chunking true C hC iv hiv pd, hpd, C08.cfbbuf_any_chunking false C hC iv hiv pe]
+  exact ⟨(rs_dec_enc C pe.flatten (RS.init iv)).1, RS.run_length false C _ _⟩
+
+/-- **keystream ciphers** (CTR ×6, BelT-CTR, OFB): a second instance at the same position undoes the first —
+    encryption and decryption are the same XOR with keystream[q, q+n) — and the length is preserved. -/
+theorem stream_roundtrip {σ : Type} {K : Core σ} {M : Nat} {ks : Nat → Bytes} {Rep : σ → Nat → Prop}
+    (hK : CoreSpec K M ks Rep) (w₁ w₂ : Nat) (s₁ s₂ : Wr σ) (b₁ b₂ : Nat)
+    (h₁ : WInv K ks Rep s₁ b₁) (h₂ : WInv K ks Rep s₂ b₂) (hq : s₁.q K b₁ = s₂.q K b₂) (data : Bytes)
+    (hfit : M = 0 ∨ s₁.q K b₁ + data.length ≤ (M - 1) * K.bs) :
+    (s₂.applyUnchecked K w₂ (s₁.applyUnchecked K w₁ data).1).1 = data ∧
+    (s₁.applyUnchecked K w₁ data).1.length = data.length := by
+  have e1 := (apply_spec hK w₁ s₁ b₁ data h₁ hfit).1
+  have hl : (s₁.applyUnchecked K w₁ data).1.length = data.length := by rw [e1]; simp
+  have e2 := (apply_spec hK w₂ s₂ b₂ _ h₂ (by rw [← hq, hl]; exact hfit)).1
+  refine ⟨?_, hl⟩
+  rw [e2, hl, ← hq, e1]
+  exact xorB_cancel_right data _ (by simp)
 
 /-! ### non-vacuity -/
 example : (Toy.cipher [1,2,3,4,5,6,7,8,9,10,11,12,13,14,15,16] 2).Valid ∧
